@@ -169,6 +169,13 @@ pub broadcast proof fn bc_cmap_contains_key(m: Map<Key, Bytes>, kk: Key)
         assert(k2 == kk);
     }
 }
+/// `&v[..]` is `v@.subrange(0, len)` for vstd: the full range is the sequence itself (proved; stated as a broadcast fact because
+/// nothing in a caller's proof would otherwise ask for extensionality)
+pub broadcast proof fn bc_subrange_full(s: Seq<u8>)
+    ensures #[trigger] s.subrange(0, s.len() as int) == s,
+{
+    assert(s.subrange(0, s.len() as int) =~= s);
+}
 pub broadcast group group_cmap {
-    bc_cmap_insert, bc_cmap_removed, bc_cmap_contains_borrowed, bc_cmap_maps_borrowed, bc_cmap_contains_key,
+    bc_cmap_insert, bc_cmap_removed, bc_cmap_contains_borrowed, bc_cmap_maps_borrowed, bc_cmap_contains_key, bc_subrange_full,
 }
